@@ -1,4 +1,5 @@
 import Poly.Proofs.Sig
+import Poly.Proofs.SigAddr
 
 /-!
 # C39 — Transaction signature validation is exact
@@ -88,6 +89,84 @@ theorem signers_exact [DecidableEq A] (entries : List (Entry K S)) (addrs : List
   refine ⟨?_, nodup_dedup _⟩
   intro a
   rw [mem_dedup, hmap, List.mem_map]
+
+/-! ## Byte-level address derivation (`Poly.Model.SigAddr`): program encoding, key sorting, hash as a parameter -/
+
+section Address
+open Poly.Model.SigAddr Poly.Proofs.SigAddr
+variable {K' : Type} (ser : K' → Bytes) (ord : K' → Ord) (H : Bytes → Bytes)
+
+/-- The address of a multi-key entry depends on the keys only through their sorted sequence: listing the same keys
+    in another order gives the same program bytes and the same address (keys that SortPublicKeys cannot tell apart
+    serialize identically — they are the same key). -/
+theorem addr_depends_on_sorted_keys (hser : ∀ a b, ord a = ord b → ser a = ser b) (k₁ k₂ : List K') (h : k₁.Perm k₂)
+    (m : Nat) :
+    encodeMulti ser ord k₁ m = encodeMulti ser ord k₂ m ∧
+      addressFromMultiPubKeys ser ord H k₁ m = addressFromMultiPubKeys ser ord H k₂ m := by
+  refine ⟨encodeMulti_perm ser ord hser k₁ k₂ h m, ?_⟩
+  unfold addressFromMultiPubKeys
+  rw [encodeMulti_perm ser ord hser k₁ k₂ h]
+
+/-- Injectivity of the program encoding: two entries with the same program bytes have the same m and the same sorted
+    sequence of serialized keys; hence two entries with the same address have that, or the hash collides on two
+    different programs. (Key serializations are shorter than 0xFD bytes: 33 to 69 bytes for the supported types.) -/
+theorem program_injective_address_or_collision (k₁ k₂ : List K') (m₁ m₂ : Nat) (p₁ p₂ : Bytes)
+    (hs₁ : ∀ k ∈ k₁, (ser k).length < 0xFD) (hs₂ : ∀ k ∈ k₂, (ser k).length < 0xFD)
+    (hm₁ : m₁ < 65536) (hm₂ : m₂ < 65536)
+    (e₁ : encodeMulti ser ord k₁ m₁ = some p₁) (e₂ : encodeMulti ser ord k₂ m₂ = some p₂) :
+    (p₁ = p₂ → m₁ = m₂ ∧ (sortKeys ord k₁).map ser = (sortKeys ord k₂).map ser) ∧
+    (addressFromMultiPubKeys ser ord H k₁ m₁ = addressFromMultiPubKeys ser ord H k₂ m₂ →
+      (m₁ = m₂ ∧ (sortKeys ord k₁).map ser = (sortKeys ord k₂).map ser) ∨ ∃ x y, x ≠ y ∧ H x = H y) := by
+  have inj : p₁ = p₂ → m₁ = m₂ ∧ (sortKeys ord k₁).map ser = (sortKeys ord k₂).map ser := by
+    intro hp; subst hp
+    exact encodeMulti_inj ser ord k₁ k₂ m₁ m₂ p₁ hs₁ hs₂ hm₁ hm₂ e₁ e₂
+  refine ⟨inj, ?_⟩
+  intro ha
+  unfold addressFromMultiPubKeys at ha
+  rw [Nat.mod_eq_of_lt hm₁, Nat.mod_eq_of_lt hm₂, e₁, e₂] at ha
+  by_cases hp : p₁ = p₂
+  · exact Or.inl (inj hp)
+  · exact Or.inr ⟨p₁, p₂, hp, ha⟩
+
+/-- What the swallowed encoder error means: AddressFromMultiPubKeys answers the empty (all-zero) address, with a nil
+    error, exactly when the parameters are out of range after the uint16 conversion of m — more than 16 keys, fewer
+    than 2 keys, m = 0 (mod 65536) or m > n. In particular AddressFromBookkeepers of 17 or more keys is the empty
+    address. -/
+theorem swallowed_error_gives_empty_address (keys : List K') (m : Nat)
+    (h : ¬(1 ≤ m % 65536 ∧ m % 65536 ≤ keys.length ∧ 1 < keys.length ∧ keys.length ≤ 16)) :
+    addressFromMultiPubKeys ser ord H keys m = ADDRESS_EMPTY := by
+  unfold addressFromMultiPubKeys encodeMulti
+  have h' : ¬(1 ≤ m % 65536 ∧ m % 65536 ≤ keys.length ∧ 1 < keys.length ∧
+      keys.length ≤ Poly.Model.SigAddr.MULTI_SIG_MAX_PUBKEY_SIZE) := h
+  simp only [if_neg h']
+
+theorem bookkeepers_above_16_get_empty_address (keys : List K') (h : 16 < keys.length) :
+    addressFromBookkeepers ser ord H keys = ADDRESS_EMPTY := by
+  unfold addressFromBookkeepers
+  split
+  · simp at h
+  · exact swallowed_error_gives_empty_address ser ord H keys _ (by omega)
+
+end Address
+
+/-- The swallowed error is unreachable from transaction validation: for every entry of a passing transaction that
+    takes the multi-key path the program encoding is defined (2 <= n <= 16, 1 <= m <= n), so its address is the hash
+    of a well-formed program, never the empty-address fallback. -/
+theorem validated_entries_have_programs {K' : Type} (ser : K' → Poly.Model.SigAddr.Bytes) (ord : K' → Poly.Model.SigAddr.Ord)
+    (wf' : S → Bool) (verify' : K' → S → Bool) (addr1' : K' → A) (addrM' : List K' → Nat → A)
+    (entries : List (Entry K' S)) (addrs : List A)
+    (h : checkTransactionSignatures wf' verify' addr1' addrM' entries = .ok addrs) :
+    ∀ e ∈ entries, e.keys.length ≠ 1 →
+      ∃ p, Poly.Model.SigAddr.encodeMulti ser ord e.keys (e.m % 65536) = some p := by
+  intro e he hne
+  obtain ⟨_, hl⟩ := limits_enforced wf' verify' addr1' addrM' entries addrs h
+  obtain ⟨h1, h2, h3, _⟩ := hl e he
+  simp only [MULTI_SIG_MAX_PUBKEY_SIZE] at h1
+  have hm : e.m % 65536 = e.m := Nat.mod_eq_of_lt (by omega)
+  unfold Poly.Model.SigAddr.encodeMulti
+  simp only [Poly.Model.SigAddr.MULTI_SIG_MAX_PUBKEY_SIZE, hm]
+  rw [if_pos ⟨h2, h3, by omega, h1⟩]
+  exact ⟨_, rfl⟩
 
 /-! ## Non-vacuity (tests by evaluation): keys and signatures are numbers, signature s verifies under key k iff s = k+100 -/
 
